@@ -318,6 +318,7 @@ def native_radio(ck, model=None):
     icfg.simulation.ionosphere.total_electron_content = 7.0
     batch = list(native_batch(rng, 30))
     batch[1] = np.abs(batch[1]) % 10.0
+    batch[2] = np.maximum(batch[1], 0.05) / np.sin(batch[0]) * 0.95  # decay length consistent with the (now in-range) decay altitude and the emergence angle
     import contextlib
     import io
 
